@@ -94,3 +94,38 @@ reg("C20", "DESIGN.md#21", "writer/reader table extraction from the AST of every
     "Decides at the level of fields and keys that every field is written, written and read under the same key, enum and nested-model conversions are paired, "
     "an empty-dict wire value is not treated as absence, no walrus re-binding leaks raw values, and the JSON variants convert exactly the datetime paths.",
     "Value conversions inside a field are trusted; omission of empty optional strings is allowed by the statement.")
+
+# rules added after the third round of independent mutants (DESIGN.md 28.5, round 3): appended to the level text of the check
+_R3 = {
+    "C01": " Also an ownership rule: the result of create_child_context never escapes the activation that created it (a body that is run again draws the same ids).",
+    "C02": " Also sibling agreement: every BatchResult the concurrent executor builds (first run and replay) is classified with the caller's completion policy.",
+    "C07": " Also: every branch-end path of the done-callback releases the waiter or re-evaluates both the completion policy and the all-finished-or-parked "
+           "predicate; zero-argument join()/get() are blocking calls whatever their receiver is called.",
+    "C08": " The id function is judged by value flow (abstract text and hash objects; the context is built by its own __init__) and by purity "
+           "(no stores, no attribute that is assigned outside __init__); a context created for a body never escapes into longer-lived state.",
+    "C09": " replay() is interpreted on two inputs for every recorded child status: one item per input, in input order.",
+    "C10": " The guard predicate is interpreted on small link chains (links known from updates / only from history, completed ancestor at every level, in "
+           "each verdict set), and a remembered negative verdict must be emptied completely wherever a positive-verdict set grows.",
+    "C13": " A poll that makes the call raise (not a suspension, not a checkpoint failure) has an accepted synchronous FAIL record.",
+    "C15": " BatchItem/BatchResult to_dict/from_dict are interpreted on symbolic items: the item value comes back on every path, items in order.",
+    "C16": " Units: a json.dumps whose len() is compared with the response byte limit keeps ensure_ascii or is measured encoded.",
+    "C17": " The status test of the replay boundary is evaluated for every OperationStatus member and must equal the backend's terminal set.",
+    "C18": " No unbounded wait precedes the stop signal of the checkpoint thread once the handler is done.",
+    "C19": " The broken flag is cleared only on paths that established an empty waiter queue.",
+    "C20": " The two scalar timestamp conversions are judged against a table of offset-dropping / naive datetime APIs.",
+}
+for _pid, _extra in _R3.items():
+    _ref, _tech, _text, _note = CHECKS[_pid]
+    CHECKS[_pid] = (_ref, _tech, _text + _extra, _note)
+
+# round 4
+_R4 = {
+    "C02": " The error codec writes every field that is set (guard `is not None`) and reads it back under the same key.",
+    "C03": " A synchronous producer's normal return must rest on its own event having been set (released wait or a read that saw it set); events are modelled "
+           "with a fresh decision per read (monotone once set) and bounded waits may time out.",
+    "C09": " Optional numeric thresholds of the completion policy are compared, never tested by truthiness.",
+    "C14": " The callback START record carries the configured timeout and heartbeat timeout unchanged; the invoke START carries the configured tenant.",
+}
+for _pid, _extra in _R4.items():
+    _ref, _tech, _text, _note = CHECKS[_pid]
+    CHECKS[_pid] = (_ref, _tech, _text + _extra, _note)
